@@ -113,7 +113,7 @@ type SpecDB struct {
 	FuncTypeLaws map[string]*Expr
 	MethodLaws   map[string]*Expr
 	Files        []string
-	Markers      []string // trusted/assume markers found
+	Markers      []string            // trusted/assume markers found
 	Monitors     map[string]*Monitor // "StructType.mutexField"
 }
 
